@@ -567,6 +567,11 @@ theorem witness_ts (r : TokenRing) (sa da : Nat) : (r.witness sa da).ts = r.ts :
     · split <;> rfl
   · exact (updateLas_las r sa da).2
 
+theorem witnessAll_ts (ps : List (Nat × Nat)) : ∀ (r : TokenRing), (witnessAll r ps).ts = r.ts := by
+  induction ps with
+  | nil => intro r; rfl
+  | cons p t ih => intro r; exact (ih _).trans (witness_ts r p.1 p.2)
+
 theorem setNextStation_ts (r r' : TokenRing) (a : Nat) (h : r.setNextStation a = some r') : r'.ts = r.ts := by
   unfold setNextStation at h
   split at h
